@@ -331,3 +331,10 @@ func (m *Machine) OverlayEntries(n *Node) (keys []string, vals []Value) {
 	}
 	return
 }
+
+// ImportStruct imports a native struct value (given by pointer) as an engine struct value.
+func (im *Importer) ImportStruct(ptr any) Value {
+	rv := reflect.ValueOf(ptr)
+	t := im.P.TypeOfReflect(rv.Type().Elem())
+	return im.Import(rv.Elem(), t)
+}
